@@ -3,6 +3,7 @@ re-read with the ast module on every run (fail closed: an unexpected shape is a 
 is emitted only so that the Coq file still type-checks)."""
 import ast
 import hashlib
+import json
 import os
 
 from harness.common import facts as F
@@ -68,6 +69,78 @@ def masked_shape(node, masked, names=()):
         if isinstance(n, ast.Name) and n.id in names:
             n.id = '<FACT>'
     return hashlib.sha1(ast.dump(node).encode()).hexdigest()[:16]
+
+
+def blind_shape(node):
+    """Shape hash with the names of locals blanked (parameters, assigned names, loop / comprehension / except
+    targets are numbered in order of first occurrence), so that a renaming is not reported while any other edit is."""
+    node = F.strip_doc(node)
+    local = set()
+    for n in ast.walk(node):
+        if isinstance(n, ast.arg):
+            local.add(n.arg)
+        elif isinstance(n, ast.Name) and isinstance(n.ctx, (ast.Store, ast.Del)):
+            local.add(n.id)
+        elif isinstance(n, ast.ExceptHandler) and n.name:
+            local.add(n.name)
+    order = {}
+    for n in ast.walk(node):
+        nm = n.arg if isinstance(n, ast.arg) else n.id if isinstance(n, ast.Name) else \
+            n.name if isinstance(n, ast.ExceptHandler) else None
+        if nm in local and nm not in order:
+            order[nm] = 'L%d' % len(order)
+    for n in ast.walk(node):
+        if isinstance(n, ast.arg) and n.arg in order:
+            n.arg = order[n.arg]
+        elif isinstance(n, ast.Name) and n.id in order:
+            n.id = order[n.id]
+        elif isinstance(n, ast.ExceptHandler) and n.name in order:
+            n.name = order[n.name]
+    return hashlib.sha1(ast.dump(node).encode()).hexdigest()[:16]
+
+
+def check_blind(src_root, pins_file, problems):
+    with open(pins_file) as f:
+        pins = json.load(f)
+    summary = {}
+    for rel, quals in pins.items():
+        try:
+            m = F.Module(src_root, rel)
+        except (OSError, SyntaxError) as e:
+            problems.append('cannot parse %s: %s' % (rel, e))
+            continue
+        for q, want in quals.items():
+            node = m.find(q)
+            got = blind_shape(node) if node is not None else 'missing'
+            summary['%s:%s[blind]' % (rel, q)] = got
+            if got != want:
+                problems.append('shape pin (local names blanked) %s:%s changed (%s -> %s): the hand-written model relies on '
+                                'the previous text of this function' % (rel, q, want, got))
+    return summary
+
+
+def block_size(src_root, problems):
+    """response._BLOCK_SIZE (the read size of FileIter) must be a positive integer constant: the model delivers the
+    whole file whatever the block size, which needs blocks of at least one byte."""
+    def ev(n):
+        if isinstance(n, ast.Constant) and isinstance(n.value, int) and not isinstance(n.value, bool):
+            return n.value
+        if isinstance(n, ast.BinOp) and isinstance(n.op, (ast.Mult, ast.Add)):
+            a, b = ev(n.left), ev(n.right)
+            return a * b if isinstance(n.op, ast.Mult) else a + b
+        raise ValueError(ast.dump(n))
+    try:
+        v = ev(F.Module(src_root, 'pyramid/response.py').const_expr('_BLOCK_SIZE'))
+        if v <= 0:
+            raise ValueError('not positive: %d' % v)
+        return v
+    except Exception as e:
+        problems.append('fact response._BLOCK_SIZE unrecognised: %s' % e)
+        return None
+
+
+def compute_blind(src_root, spec):
+    return {rel: {q: blind_shape(F.Module(src_root, rel).find(q)) for q in quals} for rel, quals in spec.items()}
 
 
 SPLITTERS = {'traversal_path_info': True, 'split_path_info': False}   # does it decode (again)?
